@@ -5,6 +5,15 @@ import vplib
 from vplib import Verdict, log
 
 PID = "C09"
+MANIFEST_ENTRY = {
+ "level_claimed": {
+  "category": "proof",
+  "text": "Theorems in coq/Properties/C09.v: for all i32 operands every GarnishNumber operation equals the exact result in Z when representable and unit otherwise (never wraps; MIN % -1, zero divisors, negative exponents, shift counts outside 0..31 are unit); i32->f64 promotion is exact; float and mixed + - * / are the correctly rounded IEEE-754 result or unit (via Flocq); no non-finite float is ever returned; bitwise on a float is unit. The model is tied to data/src/data/number.rs by running both on the boundary lattice x every operation plus float/mixed pairs on every run, and an independent exact-arithmetic oracle checks the implementation directly.",
+  "design_ref": "DESIGN.md section 8 C09"
+ },
+ "level_note": "Trusted: Coq kernel; Flocq's four standard-library axioms; extraction (ExtrOcamlBasic only); the Rust harness and Python oracle; f64::powf and f64 % are oracles / correspondence-only (no theorem about their real value). Known finding C09-K1 (float // saturates) is excluded and re-confirmed on every run.",
+ "technique": "Coq proof (lia/Flocq) over an executable model + differential correspondence with the Rust implementation"
+}
 BINOPS = ["add", "sub", "mul", "div", "idiv", "pow", "rem", "and", "or", "xor", "shl", "shr"]
 UNOPS = ["abs", "neg", "inc", "dec", "not"]
 I32_MIN, I32_MAX = -2**31, 2**31 - 1
